@@ -10,13 +10,13 @@ CONSTANTS
   MaxRestarts = 1
   MaxWriteFaults = 2
   MaxReadFaults = 1
-  ReadFaultKinds <- RF_tomb
+  ReadFaultKinds <- RF_tombs
   AllowSoleRecordLoss = FALSE
   AllowIntraSetCollision = FALSE
   AllowContinueAfterVolatile = TRUE
   RelevantSignersOnly = TRUE
 SPECIFICATION Spec
 VIEW View
-INVARIANTS TypeOK TrustOnlyByRFC RevokedNeverAgain RevokedNeverAtFetch
+INVARIANTS TypeOK TrustOnlyByRFC RevokedNeverAgain RevokedNeverAtFetch UnreadableAborts
 PROPERTIES UnauthenticatedChangesNothing RevokedOnlyRevokes FailClosed MissingKeepsTrust ReappearRestores PublishedFromState
 CHECK_DEADLOCK FALSE
